@@ -247,7 +247,7 @@ func vfStartFileSystem(r *vfRun, initial []byte) (*vfFileSystem, error) {
 		srv.end = &vfEnd{r: srv.c2s, w: srv.s2c, closeBoth: true}
 		var opts []RequestServerOption
 		if alloc {
-			opts = append(opts, WithRSAllocator())
+			opts = append(opts, vfRSAllocOpt())
 		}
 		rs := NewRequestServer(srv.end, h, opts...)
 		srv.rs = rs
